@@ -89,6 +89,33 @@ func runC12(o Opts) error {
 	for _, in := range [][]byte{{'/'}, {':'}, {'0' - 1, '5'}, {'5', '9' + 1}, []byte("12é"), []byte("١٢"), {0xff}, {0xc3}, {0xe2, 0x82}, {'1', 0x80, '2'}, []byte("１２"), {0}, {'1', 0, '2'}} {
 		c12enc(s, in, "enc-boundary")
 	}
+	// runes whose low byte is an ASCII digit (a byte(ch) truncation would take them for digits), alone and inside digit
+	// strings; a sample of all other multi-byte runes
+	for k := rune(1); k <= 64; k++ {
+		for d := rune(0x30); d <= 0x39; d++ {
+			ch := k<<8 | d
+			c12enc(s, []byte(string(ch)), "enc-rune-low-byte-digit")
+			if k%8 == 1 || thorough {
+				c12enc(s, []byte("12"+string(ch)+"4"), "enc-rune-low-byte-digit")
+				c12enc(s, []byte(string(ch)+"7"), "enc-rune-low-byte-digit")
+			}
+		}
+	}
+	for _, ch := range []rune{0x3035, 0xff10, 0xff19, 0x1d7d8, 0x10030, 0x10ff39, 0xfffd, 0x80, 0xff, 0x100, 0x7ff, 0x800, 0xffff, 0x10000} {
+		c12enc(s, []byte(string(ch)), "enc-rune-sample")
+		c12enc(s, []byte("9"+string(ch)), "enc-rune-sample")
+	}
+	nr := 200
+	if thorough {
+		nr = 5000
+	}
+	for i := 0; i < nr; i++ {
+		ch := rune(0x80 + rnd.Intn(0x10ff80))
+		if ch >= 0xd800 && ch < 0xe000 {
+			continue
+		}
+		c12enc(s, []byte("1"+string(ch)+"23"), "enc-rune-random")
+	}
 	// all byte slices up to 1 (2 thorough); sampled beyond
 	c12dec(s, []byte{}, "dec-exhaustive")
 	for a := 0; a < 256; a++ {
